@@ -140,8 +140,9 @@ def run(ctx):
             for g in extra:
                 pos = rng.randint(0, len(img['qgenes']))
                 img['qgenes'].insert(pos, g)
+                big_ = (g > base['G'] and g == extra[-1])      # one unknown gene holds huge values (a QC-like column)
                 for row in img['Q']:
-                    row.insert(pos, rng.randint(0, 4))
+                    row.insert(pos, rng.choice([50, 4000, 1000000]) if big_ else rng.randint(0, 4))
             items.append((img, scheme, {}))
             meta.append(('extra', 'order_bits'))
             # a pair under a memory budget that is just enough for batches of 4 cells of the base file: the
@@ -193,6 +194,22 @@ def run(ctx):
             scaled['Qf'] = (X * np.array(fac)[:, None]).tolist()
             items.append((scaled, scheme, {}))
             meta.append(('scaled', 'order_close'))
+            # (iii') the same raw counts, one cell made deep (each count fits 16 bits, the cell's total does not), stored as
+            # float64 / uint16 / int32: the storage type of the counts does not matter
+            Xd = X.copy()
+            Xd[0] = np.minimum(65535, X[0] * 2000 + 20000)
+            den2 = np.where(Xd.sum(axis=1) > 0, Xd.sum(axis=1), 1.0)
+            L2 = np.log2(1.0 + 1e6 * Xd / den2[:, None])
+            deepf = copy.deepcopy(raw)
+            deepf['Qf'] = Xd.tolist()
+            items.append((deepf, scheme, {'want_trace': True}))
+            meta.append(('rawbase', L2.tolist()))
+            for qd in (('uint16', 'int32') if b % 2 else ('int32', 'uint16'))[:1 if quick else 2]:
+                deepi = copy.deepcopy(deepf)
+                deepi['cfg']['qdtype'] = qd
+                deepi['cfg']['enc'] = rng.choice(['dense', 'csr', 'csc'])
+                items.append((deepi, scheme, {}))
+                meta.append(('scaled', 'order_close'))
             # (iv) negative raw value in each encoding (dense also in HDF5 chunks wider than tall, the negative
             # value then in the last column)
             for enc in ('dense', 'csr', 'csc', 'dense_chunked'):
@@ -205,6 +222,15 @@ def run(ctx):
                 neg['Qf'] = Xn.tolist()
                 items.append((neg, scheme, {}))
                 meta.append(('negative', enc))
+                if enc != 'dense_chunked' and b % 2 == 0:
+                    # ... and a negative count in a matrix stored with a signed integer type
+                    negi = copy.deepcopy(raw)
+                    negi['cfg'].update(enc=enc, qdtype=rng.choice(['int32', 'int64', 'int16']))
+                    Xi = X.copy()
+                    Xi[rng.randrange(len(Xi)), rng.randrange(Xi.shape[1])] = -1.0 * rng.randint(1, 3)
+                    negi['Qf'] = Xi.tolist()
+                    items.append((negi, scheme, {}))
+                    meta.append(('negative', enc + '-int'))
             # (i') the query lists the reference genes in reference order (all markers adjacent); the image keeps
             # the first and the last column and permutes the inner ones
             refbase = copy.deepcopy(base)
